@@ -347,3 +347,56 @@ Proof.
   destruct (Z.eq_dec k (d_max d)) as [E|Hne]; [subst k; exact Hw|].
   exfalso. assert (word_weight bg w == 0) as E0 by (apply (Habove w k Hin Hw); lia). lra.
 Qed.
+
+(* ---------- no word's probability is lost in the tail ---------- *)
+
+Lemma Qsum_ge_term : forall l x, Forall (fun y => 0 <= y) l -> In x l -> x <= Qsum l.
+Proof.
+  induction l as [|y l IH]; intros x Hn Hin; [destruct Hin|].
+  inversion Hn as [|? ? Hy Hl]; subst. cbn [Qsum].
+  assert (0 <= Qsum l) as Hs.
+  { clear -Hl. induction l as [|z l IH]; cbn [Qsum]; [lra|]. inversion Hl; subst. specialize (IH H2). lra. }
+  destruct Hin as [E|Hin]; [subst; lra|]. specialize (IH x Hl Hin). lra.
+Qed.
+
+Lemma word_term_nonneg : forall m bg t w, bg_nonneg bg -> 0 <= word_term m bg t w.
+Proof.
+  intros m bg t w Hbg. unfold word_term. destruct (word_S m w) as [s|]; [|lra].
+  destruct (Qle_bool t s); [apply word_weight_nonneg; exact Hbg|lra].
+Qed.
+
+(* the exact tail at the score of a word is at least the weight of that word *)
+Lemma tail_ge_word : forall m bg w s,
+  bg_nonneg bg -> Forall (fun row : list (cell Q) => length row = length bg) m ->
+  In w (all_words (length bg) (length m)) -> word_S m w = Some s ->
+  word_weight bg w <= tail_exact m bg s.
+Proof.
+  intros m bg w s Hbg Hlen Hin Hw. rewrite tail_exact_is_word_sum by exact Hlen. unfold tail_words.
+  assert (word_term m bg s w = word_weight bg w) as E.
+  { unfold word_term. rewrite Hw. assert (Qle_bool s s = true) as Er by (apply Qle_bool_iff; apply Qle_refl).
+    rewrite Er. reflexivity. }
+  rewrite <- E. apply Qsum_ge_term.
+  - apply Forall_forall. intros x Hx. apply in_map_iff in Hx. destruct Hx as (w' & Ex & _). subst x.
+    apply word_term_nonneg. exact Hbg.
+  - apply in_map. exact Hin.
+Qed.
+
+(* the p-value of any score within d below the score of a word is at least the probability of that
+   word: nothing of the far upper tail is lost, down to the single best word *)
+Theorem no_word_lost_Q : forall m bg d offset scale w sw s p,
+  bg_nonneg bg -> Qsum bg <= 1 ->
+  build QOps m bg = Ok d -> stage_a QOps m = Ok (offset, scale) ->
+  (Z.of_nat (length m) * 1000 < i32_max)%Z ->
+  In w (all_words (length bg) (length m)) -> word_S m w = Some sw ->
+  s <= sw - (inject_Z (Z.of_nat (length m)) / 2 + 1) / scale ->
+  d_pvalue QOps d s = Ok p ->
+  word_weight bg w <= p.
+Proof.
+  intros m bg d offset scale w sw s p Hbg Hm Hb Ha Hlen Hin Hw Hs Hp.
+  destruct (pvalue_brackets_exact_Q m bg d offset scale s p Hbg Hm Hb Ha Hlen Hp) as [Hlo _].
+  cbv zeta in Hlo.
+  assert (Forall (fun row : list (cell Q) => length row = length bg) m) as Hrl.
+  { apply build_Q_inv in Hb. destruct Hb as (_ & _ & _ & _ & Hl & _). exact Hl. }
+  eapply Qle_trans; [apply (tail_ge_word m bg w sw Hbg Hrl Hin Hw)|].
+  eapply Qle_trans; [|exact Hlo]. apply (tail_exact_antitone m bg Hbg). lra.
+Qed.
